@@ -89,6 +89,11 @@ CHECKS = {
    technique="exhaustive enumeration of all API-call/field-update sequences up to depth 4-5 over 18 operations on live values, with a differential oracle (same call on freshly built values, same scripted random stream), a snapshot oracle and a reference-model oracle",
    text="Every sequence of queries (Generate/Entropy/Alphabet/SuccessProbability, separator functions) and caller-side updates (including an in-place edit of the RequireSets slice) up to the depth bound is executed; after each query the caller-visible state must equal its snapshot, the result and bytes consumed must equal those of the same call on freshly constructed values, and the result must fit the model evaluated on the current fields (which catches state cached outside the values).",
    note="Depth bound 4 (quick) / 5 (thorough); instrumented build so that word order of freshly built lists is canonical; no state hashing (plain sequence enumeration)."),
+ "C17": dict(
+   engine="E5-cli", category="exploration", ref="§3 C17, §1 E5",
+   technique="exhaustive enumeration of the flag-value product per subcommand, run against the built binary with a scripted random tape, compared with the library/model recipe the flags denote",
+   text="The CLI's input space is a finite product of documented flag values; all combinations (within the stated value lists) are run through the real binary. stdout must be exactly one line - the library's password on the same tape or at least a password the denoted recipe can generate, or its entropy to two decimals - with status 0; refused recipes must exit 1 and usage errors 2 without printing a password.",
+   note="Exploration level: values per flag are a stated finite list (documented names only); word passwords are validated by segmentation against the normalised list because word order inside the binary's list is not controlled."),
 }
 
 PENDING_REASON = "check not built yet in this session (planned in DESIGN.md §3; will be claimed when its checker exists)"
@@ -127,6 +132,7 @@ def main():
             dict(name="E1-faults", path="/verif/harness/checks/c09.go", serves_properties=["C09"], kind_free_text="fault injector on the scripted reader: error/short-read at every read position"),
             dict(name="E2-maporder", path="/verif/harness/instrument/instrument.go", serves_properties=["C08","C10"], kind_free_text="AST instrumenter (map ranges -> verifrt.MapKeys, optional scheduling points) + go build -overlay + DFS over all iteration orders"),
             dict(name="E4-sequences", path="/verif/harness/checks/c15.go", serves_properties=["C15"], kind_free_text="explicit enumeration of operation sequences on live recipe values with differential + snapshot + model oracles"),
+            dict(name="E5-cli", path="/verif/harness/checks/c17.go", serves_properties=["C17"], kind_free_text="command-line product enumerator over the built opgen binary (tag verif, $VERIF_TAPE)"),
             dict(name="E-config", path="/verif/harness/checks/c07.go", serves_properties=["C07","C12","C16"], kind_free_text="exhaustive enumeration of recipe configurations (no randomness involved)"),
         ],
         checks=checks,
